@@ -1,5 +1,5 @@
 """C04 - certificates are valid witnesses and appear exactly when promised (shape + assembly clauses)"""
-from . import dynalloc, accept, provenance, dyn, dyncnf
+from . import dynalloc, accept, provenance, dyn, dyncnf, cli
 
 
 def run(ctx):
@@ -18,6 +18,7 @@ def run(ctx):
     dynalloc.rule_id_indexed_vectors(ctx)
     dyn.rule_cached_witness_consistent(ctx)
     dyncnf.rule_dynamic_variable_registration(ctx)
+    cli.rule_encoder_selection(ctx)  # DC-PR certificates are complete extensions only if the credulous PR path gets the complete encoder
     ctx.assume("rustc's MIR / borrow checker; summaries of sa/shapes.py (bool/Option/tuple shapes, callee summaries, relational restriction by dominating conditions)")
     return (
         "F5 return-shape summaries of all 24 *_with_certificate impls (static and dynamic, through helpers, caches and dyn dispatch) against the "
